@@ -220,21 +220,42 @@ def path_to_script(path, xid, tp, model_max, hostile):
     return lines, pred
 
 
-def run_mc(name, invariants, emit, expect_violation=None):
+def run_mc(name, invariants, emit, expect_violation=None, max_keep=200000):
     consts = MC[name]
     cfg = write_cfg(name, consts, invariants, emit)
+    out_path = "%s/mc.%s.%d.out" % (vlib.TLCDIR, name, os.getpid()) if emit != "none" else None
+    os.makedirs(vlib.TLCDIR, exist_ok=True)
     r = vlib.tlc("Xcm", cfg, workers=vlib.NCPU, timeout=1500 if emit != "none" else 900, heap="16g",
-                 metadir="%s/mc.%s.%d" % (vlib.TLCDIR, name, os.getpid()))
+                 metadir="%s/mc.%s.%d" % (vlib.TLCDIR, name, os.getpid()), out_path=out_path)
     os.unlink(cfg)
     if r["error"]:
+        if out_path and os.path.exists(out_path):
+            os.unlink(out_path)
         raise InternalError("TLC failed on %s:\n%s" % (name, r["error"]))
     paths = []
     if emit != "none":
-        for m in re.finditer(r'<<"@P", "(.*)">>', r["out"]):
-            try:
-                paths.append(json.loads(m.group(1).replace('\\"', '"')))
-            except ValueError:
-                pass
+        # one printed behaviour per state / transition: millions of lines in the thorough tier.  They are read from the file
+        # twice - counted, then sampled by a hash of their content (the same behaviours are kept whatever order TLC's workers
+        # printed them in) - so that at most max_keep of them are ever parsed
+        import zlib
+        n = 0
+        with open(out_path, errors="replace") as f:
+            for line in f:
+                if line.startswith('<<"@P"'):
+                    n += 1
+        thr = 2 ** 32 if n <= max_keep else int(2 ** 32 * max_keep / n)
+        with open(out_path, errors="replace") as f:
+            for line in f:
+                if not line.startswith('<<"@P"') or zlib.crc32(line.encode()) >= thr:
+                    continue
+                m = re.match(r'<<"@P", "(.*)">>', line)
+                if m:
+                    try:
+                        paths.append(json.loads(m.group(1).replace('\\"', '"')))
+                    except ValueError:
+                        pass
+        os.unlink(out_path)
+        r["paths_printed"] = n
     return r, paths
 
 
@@ -687,7 +708,7 @@ def replay(pid, path):
         import timer
         return timer.replay(pid, path)
     lines0 = [l.rstrip("\n") for l in open(path) if l.strip() and not l.startswith("#")]
-    if lines0 and len(lines0[0].split()) >= 4 and lines0[0].split()[3] in ("normal", "refused", "silent", "release", "mute", "garbage", "idle", "ctlflood", "blocking", "garbage2", "longidle"):
+    if lines0 and len(lines0[0].split()) >= 4 and lines0[0].split()[3] in ("normal", "refused", "silent", "release", "mute", "garbage", "idle", "ctlflood", "blocking", "garbage2", "longidle", "accblk"):
         import est
         binary = vlib.build(["est_exec"])[0]
         d, batch, _ = est.run(binary, lines0, "replay_%s" % pid, nproc=1)
